@@ -32,6 +32,7 @@ MCTilts    == {0, 0 - 1500000}
 \* total input powers from -25 dBm to +27 dBm: the last one is above the pMax of every amplifier (negative effective gain)
 MCPinTots  == {0 - 25 * dB, 0 - 10 * dB, 0, 6 * dB, 12 * dB, 27 * dB}
 MCPinTotsQuick == {0 - 25 * dB, 6 * dB, 27 * dB}
+MCPinTotsReplay == {0 - 25 * dB, 0 - 10 * dB, 6 * dB, 27 * dB}     \* thorough-tier replay (histories of 3 crossings)
 
 Emit == Len(hist) < MaxCross \/ PrintT("@@" \o ToJson([amp |-> amp, set |-> set, hist |-> hist]))
 
